@@ -68,7 +68,8 @@ def gluedLeftCommodity (doc : Bytes) (tree : Journal) (formats : Option Formats)
 def isWsOnly (l : Bytes) : Bool := !l.isEmpty && l.all isBlank
 
 /-- Guard of the known finding `trimmed-blank-line-splits-entry`: a line of blanks/tabs only
-    that is trimmed (no parse error on it) and is directly followed by an indented line.  The
+    that is trimmed (no parse error on it) and is directly followed by a line that starts with
+    a blank, a tab or a CR (the lexer's indent characters).  The
     parser lets a whitespace-only line continue a transaction or directive but ends the entry at
     an empty line, so trimming it detaches the indented lines that follow
     (pinned by TestFormatDocument_TrimsEmptyLinesWithSpaces). -/
@@ -76,7 +77,16 @@ def blankLineSplitsEntry (doc : Bytes) (errLines : List Nat) : Bool :=
   let ls := splitLines doc
   (List.range ls.length).any fun i =>
     isWsOnly (ls.getD i []) && !errLines.contains (i + 1) &&
-      (match (ls.getD (i + 1) []).head? with | some b => isBlank b | none => false)
+      (match (ls.getD (i + 1) []).head? with | some b => isBlankOrCR b | none => false)
+
+/-- Guard of the known finding `crlf-blank-comment`: a rewritten posting whose comment consists
+    only of blanks and the CR of a CRLF line end.  The lexer takes the CR into the comment (so
+    the line parses); the formatter drops the blank comment, the CR stays as line terminator
+    and the lexer then reports the bare CR as an unexpected token (CRLF is not supported by the
+    lexer, DESIGN 8 #4). -/
+def crlfBlankComment (tree : Journal) (errLines : List Nat) : Bool :=
+  (allPostings tree).any fun p =>
+    !errLines.contains p.range.start.line && p.comment.contains 13 && p.comment.all isBlankOrCR
 
 /-- What both oracles need first: the edits apply, and harness and driver agree on the result. -/
 def applied (j : Json) (doc : Bytes) (implE : List Edit) : Except String Bytes := do
@@ -164,7 +174,8 @@ def format (j : Json) : Json :=
   let known : Array Json :=
     if !(v5.ok && v4.ok) && lenientOk then
       (if gluedLeftCommodity doc tree formats errLines then #[Json.str "glued-left-commodity"] else #[]) ++
-      (if !v4.ok && blankLineSplitsEntry doc errLines then #[Json.str "trimmed-blank-line-splits-entry"] else #[])
+      (if !v4.ok && blankLineSplitsEntry doc errLines then #[Json.str "trimmed-blank-line-splits-entry"] else #[]) ++
+      (if crlfBlankComment tree errLines then #[Json.str "crlf-blank-comment"] else #[])
     else #[]
   let why := if !v5.ok then v5.why else v4.why
   Json.mkObj [("model", arrJ editJ edits), ("in_domain", inDomain), ("spec_ok", v5.ok && v4.ok), ("why", why),
